@@ -22,6 +22,9 @@ import Driver.Util
                                      → <B0',..,B4'> <randScale_Q14'>   (gain scalars after one concealed SILK frame)
     decskel lossdur <loss_duration> <LM> → loss_duration'   (after a concealed CELT frame)
     decskel lossgood <LM>                → loss_duration'   (after a decoded CELT frame)
+    decskel celtplc <loss_duration> <skip_plc> <start> <LM> → kind=pitch|noise ld=<loss_duration'> skip=<skip_plc'>
+    decskel celtgood <loss_duration> <skip_plc> <LM>        → ld=<loss_duration'> skip=<skip_plc'>
+    decskel celtreset                                        → ld=0 skip=1
 -/
 namespace Driver.SuiteDecSkel
 open Opus Opus.Framing Opus.DecSkel Driver
@@ -208,6 +211,23 @@ def handle : List String → String
       let g := Opus.SilkPlcGains.conceal lc (v ≠ 0) nsf b rs plt ig
       s!"g={intList g.1} {g.2}"
     | _, _, _, _, _, _, _ => "bad-op"
+  | ["celtplc", ld, skip, start, lm] =>
+    match parseInt ld, parseInt skip, parseInt start, parseNat lm with
+    | some ld, some skip, some start, some lm =>
+      let s : Opus.SilkPlcGains.CeltPlc := { ld, skip := skip ≠ 0 }
+      let k := Opus.SilkPlcGains.celtLostKind s start
+      let s' := Opus.SilkPlcGains.celtLost s start lm
+      s!"kind={if k = .noise then "noise" else "pitch"} ld={s'.ld} skip={if s'.skip then 1 else 0}"
+    | _, _, _, _ => "bad-op"
+  | ["celtgood", ld, skip, lm] =>
+    match parseInt ld, parseInt skip, parseNat lm with
+    | some ld, some skip, some lm =>
+      let s' := Opus.SilkPlcGains.celtGood { ld, skip := skip ≠ 0 } lm
+      s!"ld={s'.ld} skip={if s'.skip then 1 else 0}"
+    | _, _, _ => "bad-op"
+  | ["celtreset"] =>
+    let s' := Opus.SilkPlcGains.celtReset
+    s!"ld={s'.ld} skip={if s'.skip then 1 else 0}"
   | ["lossgood", lm] =>
     match parseNat lm with
     | some lm => s!"ld={Opus.SilkPlcGains.celtLossGood lm}"
